@@ -40,6 +40,12 @@ STMTS = {
     "comma-for-step": "for (i = 0; i < 2; i++, RxV = 1) { RdV = i; }",
     "prefix-dec-stmt": "--RxV;",
     "goto-back": "again: RdV = 1; goto again;",
+    "void-ternary-same": "RtV ? trap(0, 0) : trap(1, 1);",
+    "void-ternary-paren": "(RtV ? trap(0, 0) : trap(1, 1));",
+    "void-ternary-diff": "RtV ? trap(0, 0) : set_usr_field(bundle, HEX_REG_FIELD_USR_OVF, 1);",
+    "void-ternary-usr": "RtV ? set_usr_field(bundle, HEX_REG_FIELD_USR_OVF, 1) : set_usr_field(bundle, HEX_REG_FIELD_USR_OVF, 0);",
+    "void-in-arith": "RdV = trap(0, 0) + 1;",
+    "void-as-arg": "RdV = clz32(trap(0, 0));",
     "comma-stmt": "RdV = 1, RxV = 2;",
     "unknown-call-args": "frobnicate(RsV);",
     "unknown-call-noargs": "frobnicate();",
